@@ -25,7 +25,7 @@ from .world import SimHang, HarnessError
 TERM_SIGNALS = [1, 2, 3, 4, 5, 6, 7, 8, 9, 10, 11, 12, 13, 14, 15, 24, 25, 26, 27, 31]
 
 PTY_OPS = ['isalive', 'wait', 'kill', 'terminate', 'terminate_force', 'close', 'close_noforce', 'sendeof',
-           'expect_eof', 'send', 'rnb', 'with_exc', 'del', 'sendline', 'read_all']
+           'expect_eof', 'send', 'rnb', 'with_exc', 'del', 'sendline', 'read_all', 'aexpect_eof']
 FD_OPS = ['isalive', 'close', 'send', 'expect_eof', 'rnb', 'with_exc', 'del']
 
 
@@ -118,7 +118,7 @@ def enumerate_scenarios(tier, seed):
     import random
     rng = random.Random('lifecycle-enum:%d' % seed)
     out = []
-    obs = ['isalive', 'wait', 'close', 'terminate', 'expect_eof', 'read_all']
+    obs = ['isalive', 'wait', 'close', 'terminate', 'expect_eof', 'read_all', 'aexpect_eof']
     seqs = [list(p) for n in (1, 2, 3) for p in itertools.product(obs, repeat=n)]
     fates = [{'code': c} for c in range(256)] + [{'sig': s} for s in TERM_SIGNALS]
     per = 2 if tier == 'quick' else 12
@@ -138,7 +138,7 @@ def enumerate_scenarios(tier, seed):
                         'enum': 'status'})
     L = 2 if tier == 'quick' else 3
     al = ['isalive', 'wait', 'kill', 'terminate', 'terminate_force', 'close', 'close_noforce', 'sendeof', 'expect_eof',
-          'send', 'rnb', 'with_exc', 'del']
+          'send', 'rnb', 'with_exc', 'del', 'aexpect_eof']
     for disp in ['normal', 'ignore', 'stopped', 'exited', 'ignore_stopped']:
         for n in range(1, L + 1):
             for p in itertools.product(al, repeat=n):
@@ -333,6 +333,21 @@ def run(scn, prop=None):
                     res['ret'] = child.expect([EOF, TIMEOUT], timeout=0.05)
                 elif o == 'read_all':
                     res['ret'] = child.expect([EOF, TIMEOUT], timeout=0.3)
+                elif o == 'aexpect_eof':
+                    # the asyncio path: at EOF the transport closes the spawn object itself
+                    import asyncio
+                    from . import aioloop
+                    aioloop.install()
+                    if state.get('loop') is None:
+                        state['loop'] = aioloop.SimLoop()
+                        state['loop'].set_exception_handler(lambda lp, ctx: None)
+
+                    async def aop():
+                        rr = await child.expect([EOF, TIMEOUT], timeout=0.3, async_=True)
+                        for _ in range(3):
+                            await asyncio.sleep(0)      # let the transport finish closing
+                        return rr
+                    res['ret'] = state['loop'].run_until_complete(aop())
                 elif o == 'send':
                     res['ret'] = child.send(b'INTRUDER' if child.encoding is None else u'INTRUDER')
                 elif o == 'sendline':
@@ -385,6 +400,8 @@ def run(scn, prop=None):
                   % (o, sk[1], sk[0], sk[2]), site='kill@%s' % (sk[2][1] if sk[2] else None), **det)
             if out:
                 break
+            if state['child'] is None and state.get('loop') is not None:
+                break      # the event loop's transport still refers to the object: it is not garbage yet
             if state['child'] is None:
                 # object dropped: nothing may remain
                 if proc is not None and proc.state != 'reaped':
@@ -443,8 +460,11 @@ def run(scn, prop=None):
                         want = truth[1] if truth[0] == 'exit' else (None if tr != 'popen' else res['ret'])
                         if res['ret'] != want:
                             V('C09.wait_return', 'wait() returned %r, exit code is %r' % (res['ret'], want), **det)
+                if o == 'aexpect_eof' and res['out'] == 'ret' and child.closed and proc.state != 'reaped' and not was_closed:
+                    V('C10.not_reaped', 'awaited expect reached EOF and asyncio closed the object, but the child is %s' % proc.state, **det)
                 if (o == 'wait' and res['out'] == 'ret') or (o == 'isalive' and res.get('ret') is False) or \
-                        (o in ('close', 'with_exc') and res['out'] == 'ret'):
+                        (o in ('close', 'with_exc') and res['out'] == 'ret') or \
+                        (o == 'aexpect_eof' and res['out'] == 'ret' and child.closed and not was_closed):
                     if not child.terminated:
                         V('C09.unobserved', '%s completed but terminated is still False' % o, **det)
             else:
@@ -491,6 +511,12 @@ def run(scn, prop=None):
                 if getattr(main_of, 'open', False) and not isinstance(e, pexpect.ExceptionPexpect):
                     V('C10.fd_leak', 'final close() raised %s and left the descriptor open' % type(e).__name__,
                       ops=[x['op'] for x in scn['ops']], exc=repr(e)[:200])
+        if state.get('loop') is not None:
+            state['loop'].detach_all()
+            try:
+                state['loop'].close()
+            except Exception:
+                pass
         info = collect_info(r)
         info['counters'] = {'tr:%s' % tr: 1, 'disp:%s' % scn.get('disp'): 1, 'nops': len(scn['ops']),
                             'enum:%s' % scn.get('enum'): 1}
